@@ -129,13 +129,15 @@ def coq_case(case, out):
             ok = "true" if (op != "log" or L[0] > 0) else "false"
             code = f"UMap {flist(f(L))} {flist(f(R))} {ok}"
         elif op == "pow":
-            straddle = "true" if (min(L) < 0 < max(R)) else "false"
             cc = mk_number(nk, c)
             try:
                 l, r = L ** cc, R ** cc
             except Exception:
                 l, r = L * np.nan, R * np.nan
-            code = f"UPow {straddle} {flist(l)} {flist(r)}"
+            tab = {}
+            for a, b in list(zip(L, l)) + list(zip(R, r)):
+                tab.setdefault(float(a), float(b))
+            code = "(UPow [" + "; ".join(f"({vlib.hexf(a)}, {vlib.hexf(b)})" for a, b in tab.items()) + "])"
         elif op == "UDiv":
             code = "(UDiv %s)" % ("true" if nk in ("int", "float") else "false")
         else:
